@@ -11,7 +11,7 @@ ALL = ['C%02d' % i for i in range(1, 19)]
 DEPS = {
     'C02': ['C03'],             # "whose RFC 5892 rule is satisfied at that position": acceptance depends on the rules deciding correctly
     'C06': ['C12', 'C13'],      # "map every Zs ... strip ... collapse" and "permitted number of re-applications"
-    'C08': ['C06', 'C13'],      # Nickname half: re-validation every round + fixed point
+    'C08': ['C06', 'C13', 'C04', 'C05'],   # Nickname half: re-validation every round + fixed point; other profiles: the argument rests on the pipeline contracts (validate, then map, then NFC)
     'C07': ['C13'],             # Nickname comparison form is iterated to stability
 }
 
